@@ -291,7 +291,23 @@ def check(ctx):
               f"the arguments are zipped with `{norm(defs[0]) if defs else norm(pv)}` only: for `class E(A[U, T], Generic[T, U])`, E[int, str] binds U=int, T=str (order of appearance in the bases) instead of T=int, U=str - the fields inherited from A get each other's types, valid data is rejected and swapped data accepted",
               gm, zips[0], detail="origin.__parameters__")
 
+    # ---------------- R11: merged multipleOf
+    ctx.rule("C01.R11", "multipleOf constraints of two levels merge into their least common multiple computed on integers (floor division): a float result loses precision on large integers, which are then rejected although they are multiples", floor=2)
+    mm = model.func("apischema.constraints.merge_mult_of")
+    rets = [r for r in walk_no_nested(mm.node) if isinstance(r, ast.Return) and r.value is not None]
+    ctx.require(len(rets) == 1, "merge_mult_of: single return not found")
+    v = rets[0].value
+    true_div = [b for b in ast.walk(v) if isinstance(b, ast.BinOp) and isinstance(b.op, ast.Div)]
+    is_lcm = (isinstance(v, ast.BinOp) and isinstance(v.op, ast.FloorDiv) and "gcd(" in norm(v.right)) or (isinstance(v, ast.Call) and (dotted(v.func) or "").endswith("lcm"))
+    ctx.check(is_lcm and not true_div, "C01.R11", f"{mm.qualname}:lcm", None,
+              f"`return {short(v, 50)}` computes the merged multiple with a true division: the result is a float (12.0) and `value % 12.0` is inexact beyond 2**53 - 12 * (2**53 + 1) is refused as 'not a multiple of 12.0'",
+              mm, rets[0], detail="m1 * m2 // gcd(m1, m2)")
+    guards = [n for n in walk_no_nested(mm.node) if isinstance(n, ast.If) and any(isinstance(x, ast.Raise) for x in n.body)]
+    ok = len(guards) == 1 and isinstance(guards[0].test, ast.BoolOp) and isinstance(guards[0].test.op, ast.Or) and all("isinstance" in norm(x) and "int" in norm(x) for x in guards[0].test.values)
+    ctx.check(ok, "C01.R11", f"{mm.qualname}:integers-only", None, "merge_mult_of does not refuse the merge as soon as one of the two values is not an integer (gcd is only defined on integers)", mm, guards[0] if guards else mm.node, detail="not int(m1) or not int(m2) -> TypeError")
+
 def mutants(mb):
+    mb.add_text("mult-of-true-division", "apischema/constraints.py", "    return m1 * m2 // gcd(m1, m2)", "    return m1 * m2 / gcd(m1, m2)", "C01.R11", "lcm")
     mb.add_text("generic-params-by-appearance", "apischema/typing.py", "        parameters = getattr(origin, \"__parameters__\", None)\n        if parameters is None:\n            parameters = _collect_type_parameters(origin.__orig_bases__)\n", "        parameters = _collect_type_parameters(origin.__orig_bases__)\n", "C01.R10", "parameters")
     M = "apischema/deserialization/methods.py"
     mb.add_text("float-accepts-bool", M, "        elif isinstance(data, int) and not isinstance(data, bool):", "        elif isinstance(data, int):", "C01.R2", "FloatMethod")
